@@ -428,6 +428,14 @@ pub fn render_canonical(d: &ADoc) -> String {
     render(d, &mut Choices::canonical())
 }
 
+/// The canonical rendering with every character reference spelled in hexadecimal (`&#xA;`).
+pub fn render_hex_refs(d: &ADoc) -> String {
+    let mut c0 = Choices::canonical();
+    let _ = render(d, &mut c0);
+    let tape: Vec<(usize, usize)> = c0.seen.iter().enumerate().filter(|(_, n)| **n == 6).map(|(i, _)| (i, 1)).collect();
+    render(d, &mut Choices::with(tape))
+}
+
 /// All renderings within `k` deviations (k ≤ 2) of the canonical one; the canonical one first.
 pub fn renderings(d: &ADoc, k: usize) -> Vec<String> {
     let mut c0 = Choices::canonical();
